@@ -1120,6 +1120,211 @@ fn run_glyph_loop(rng: &mut Rng, tables0: &[ATable], d: &ADef, rank: &BTreeMap<S
     }
 }
 
+// ---------------------------------------------------------------- format 1: generated tables + independent decoder
+
+struct F1Table {
+    max_entry: u16,
+    max_gm_entry: u16,
+    first_mapped: u16,
+    entry_index: Vec<u16>,                     // for gids first_mapped..7
+    records: Vec<(u32, u16, Vec<(u16, u16)>)>, // (tag, first new entry index, entry map records)
+    applied: Vec<u16>,
+    fmt: u8,
+    bytes: Vec<u8>,
+}
+
+fn gen_format1(rng: &mut Rng) -> F1Table {
+    let max_gm_entry: u16 = *rng.pick(&[2u16, 5, 40, 200, 254, 255, 256, 300]);
+    let max_entry: u16 = {
+        let opts: Vec<u16> = [max_gm_entry, max_gm_entry + 3, 255, 256, 257, 300, 400].into_iter().filter(|m| *m >= max_gm_entry).collect();
+        *rng.pick(&opts)
+    };
+    let wide = max_entry >= 256;
+    let first_mapped: u16 = rng.below(4) as u16;
+    let gm_vals: Vec<u16> = {
+        let mut v = vec![0u16, 1, 2, max_gm_entry, max_gm_entry.saturating_sub(1), max_gm_entry / 2];
+        if max_gm_entry < max_entry {
+            v.push(max_gm_entry + 1); // larger than the glyph map maximum: ignored
+        }
+        v
+    };
+    let entry_index: Vec<u16> = (first_mapped..7).map(|_| *rng.pick(&gm_vals)).collect();
+    let tag_univ: Vec<u32> = {
+        let mut t: Vec<u32> = [b"aalt", b"dlig", b"liga", b"null", b"smcp"].iter().map(|t| tag_u32(t)).collect();
+        t.sort();
+        t
+    };
+    let mut records: Vec<(u32, u16, Vec<(u16, u16)>)> = vec![];
+    if max_entry > max_gm_entry && rng.chance(5, 6) {
+        let tags = subset(rng, &tag_univ, 4);
+        for t in tags {
+            let n = 1 + rng.below(3) as usize;
+            let first_new = {
+                let span = (max_entry - max_gm_entry) as u64;
+                let base = max_gm_entry + 1 + rng.below(span) as u16;
+                if rng.chance(1, 10) { max_gm_entry } else { base } // sometimes invalid (<= glyph map maximum)
+            };
+            let emr: Vec<(u16, u16)> = (0..n)
+                .map(|_| {
+                    let a = *rng.pick(&gm_vals);
+                    let b = *rng.pick(&gm_vals);
+                    if rng.chance(1, 8) { (a.max(b), a.min(b)) } else { (a.min(b), a.max(b)) }
+                })
+                .collect();
+            records.push((t, first_new, emr));
+        }
+    }
+    let bitmap_len = (max_entry as usize + 1 + 7) / 8;
+    let mut bitmap = vec![0u8; bitmap_len];
+    let mut applied = vec![];
+    let interesting: Vec<u16> = entry_index.iter().copied().chain(records.iter().flat_map(|r| (0..r.2.len() as u16).map(move |i| r.1 + i))).filter(|i| *i <= max_entry).collect();
+    for i in &interesting {
+        if rng.chance(1, 5) && !applied.contains(i) {
+            applied.push(*i);
+            bitmap[*i as usize / 8] |= 1 << (*i % 8);
+        }
+    }
+    let fmt = 1 + rng.below(3) as u8;
+    let template = b"//h/{id}";
+    let push_idx = |b: BeBuffer, v: u16| if wide { b.push(v) } else { b.push(v as u8) };
+    let mut b = BeBuffer::new().push(1u8).push(0u32).extend([0u32, 0, 0, 1]).push(max_entry).push(max_gm_entry).push(Uint24::new(7));
+    let header_len = 1 + 4 + 16 + 2 + 2 + 3 + 4 + 4 + bitmap_len + 2 + template.len() + 1;
+    let gm_len = 2 + entry_index.len() * if wide { 2 } else { 1 };
+    b = b.push(header_len as u32).push(if records.is_empty() { 0u32 } else { (header_len + gm_len) as u32 });
+    for x in &bitmap {
+        b = b.push(*x);
+    }
+    b = b.push(template.len() as u16);
+    for x in template {
+        b = b.push(*x);
+    }
+    b = b.push(fmt);
+    assert_eq!(b.len(), header_len);
+    b = b.push(first_mapped);
+    for e in &entry_index {
+        b = push_idx(b, *e);
+    }
+    if !records.is_empty() {
+        b = b.push(records.len() as u16);
+        for (t, first_new, emr) in &records {
+            b = b.push(tag_of(*t));
+            b = push_idx(b, *first_new);
+            b = push_idx(b, emr.len() as u16);
+        }
+        for (_, _, emr) in &records {
+            for (a, z) in emr {
+                b = push_idx(b, *a);
+                b = push_idx(b, *z);
+            }
+        }
+    }
+    F1Table { max_entry, max_gm_entry, first_mapped, entry_index, records, applied, fmt, bytes: b.as_slice().to_vec() }
+}
+
+/// "Interpret Format 1 Patch Map" + entry intersection, written from the specification:
+/// offered entry index -> (intersecting codepoints, intersecting feature tags)
+fn f1_expected(t: &F1Table, cmap: &[(u32, u32)], d: &ADef) -> Vec<(u16, usize, usize)> {
+    let in_def = |cp: u32| match &d.cps {
+        ACps::Incl(v) => v.contains(&cp),
+        ACps::Excl(v) => !v.contains(&cp),
+    };
+    let mut hit: BTreeMap<u16, (BTreeSet<u32>, BTreeSet<u32>)> = BTreeMap::new();
+    for (cp, gid) in cmap {
+        if !in_def(*cp) {
+            continue;
+        }
+        let e = if (*gid as u16) < t.first_mapped { 0 } else { t.entry_index[(*gid as u16 - t.first_mapped) as usize] };
+        if e > t.max_gm_entry {
+            continue;
+        }
+        hit.entry(e).or_default().0.insert(*cp);
+    }
+    let glyph_hits = hit.clone();
+    for (tag, first_new, emr) in &t.records {
+        let wanted = match &d.feats {
+            None => true,
+            Some(v) => v.contains(tag),
+        };
+        if !wanted {
+            continue;
+        }
+        for (i, (first, last)) in emr.iter().enumerate() {
+            let mapped = *first_new as u32 + i as u32;
+            if first > last || *last > t.max_gm_entry || mapped <= t.max_gm_entry as u32 || mapped > t.max_entry as u32 {
+                continue;
+            }
+            let mut cps = BTreeSet::new();
+            let mut any = false;
+            for (_, (c, _)) in glyph_hits.range(*first..=*last) {
+                any = true;
+                cps.extend(c.iter().copied());
+            }
+            if any {
+                let e = hit.entry(mapped as u16).or_default();
+                e.0.extend(cps);
+                e.1.insert(*tag);
+            }
+        }
+    }
+    hit.into_iter().filter(|(i, _)| *i > 0 && !t.applied.contains(i)).map(|(i, (c, f))| (i, c.len(), f.len())).collect()
+}
+
+fn format1_generated(rng: &mut Rng, st: &mut Stats, n: usize) {
+    use font_test_data::ift::IFT_BASE;
+    use skrifa::MetadataProvider;
+    let base = FontRef::new(IFT_BASE).unwrap();
+    let cmap: Vec<(u32, u32)> = base.charmap().mappings().map(|(c, g)| (c, g.to_u32())).collect();
+    let cp_univ: Vec<u32> = cmap.iter().map(|x| x.0).chain([0x41u32, 0x123]).collect();
+    let tag_univ: Vec<u32> = [b"aalt", b"dlig", b"liga", b"null", b"smcp", b"rlig"].iter().map(|t| tag_u32(t)).collect();
+    for ti in 0..n {
+        let t = gen_format1(rng);
+        let mut fb = FontBuilder::new();
+        fb.add_raw(IFT_TAG, t.bytes.clone());
+        fb.copy_missing_tables(base.clone());
+        let font = fb.build();
+        st.count(&format!("f1gen.width{}_gm{}", if t.max_entry >= 256 { 2 } else { 1 }, if t.max_gm_entry >= 256 { 2 } else { 1 }));
+        if t.records.iter().map(|r| r.2.len()).sum::<usize>() >= 2 {
+            st.count("f1gen.several_entry_map_records");
+        }
+        for di in 0..8 {
+            let cps = match rng.below(6) {
+                0 => ACps::Excl(vec![]),
+                1 => ACps::Excl(subset(rng, &cp_univ, 4)),
+                _ => ACps::Incl(subset(rng, &cp_univ, 4)),
+            };
+            let feats = if rng.chance(1, 5) { None } else { Some(subset(rng, &tag_univ, 3)) };
+            let d = ADef { cps, feats, ds: Some(vec![]) };
+            let exp = f1_expected(&t, &cmap, &d);
+            st.evaluations += 1;
+            let key = format!("f1gen/{}/{}", ti, di);
+            match observe_offered(&font, &real_def(&d)) {
+                Ok(Some(obs)) => {
+                    let got: Vec<(u16, usize, usize)> = obs.iter().map(|o| ((o.bit as i64 - 36 * 8) as u16, o.cp as usize, o.tags as usize)).collect();
+                    let exp_cmp: Vec<(u16, usize, usize)> = if t.fmt == 3 { exp.iter().map(|e| (e.0, 0, 0)).collect() } else { exp.clone() };
+                    if got != exp_cmp || obs.iter().any(|o| o.table != 0 || o.fmt != t.fmt || (t.fmt != 3 && o.order != (o.bit as u64 - 288))) {
+                        st.oracle_failure(json!({"key": "format1:offered-differs-from-spec-decoder", "case": key, "what": "format-1 offered entries (index, codepoints, tags) differ from the independent decoder", "expected": format!("{:?}", exp_cmp), "got": format!("{:?}", got), "def": format!("{:?}", d), "max_entry": t.max_entry, "max_glyph_map_entry": t.max_gm_entry, "first_mapped": t.first_mapped, "entry_index": format!("{:?}", t.entry_index), "records": format!("{:?}", t.records), "applied": format!("{:?}", t.applied), "fmt": t.fmt}));
+                    }
+                    if exp.iter().any(|e| e.0 > t.max_gm_entry) {
+                        st.count("f1gen.feature_entry_offered");
+                        st.nontrivial(&format!("{:?}{:?}", t.bytes, d));
+                    }
+                    if let Ok(Some(us)) = observe_select(&font, &real_def(&d)) {
+                        if let Some(why) = group_oracle(&obs, &us) {
+                            st.oracle_failure(json!({"key": "format1:group", "case": key, "what": why}));
+                        }
+                    }
+                }
+                Ok(None) => {
+                    st.oracle_failure(json!({"key": "format1:unexpected-error", "case": key, "what": "intersecting_patches failed on a well-formed generated format-1 table"}));
+                }
+                Err(p) => {
+                    st.oracle_failure(json!({"key": "format1:panic", "case": key, "panic": p}));
+                }
+            }
+        }
+    }
+}
+
 // ---------------------------------------------------------------- main
 
 fn main() {
@@ -1140,7 +1345,7 @@ fn main() {
     let nfonts = if thorough { 3600 } else { 450 };
     for fi in 0..nfonts {
         let malformed = fi % 9 == 8;
-        let o = GenOpts { malformed, mode: if fi % 5 == 4 && !malformed && fi % 9 != 7 { 4 } else { rng.below(4) } };
+        let o = GenOpts { malformed, mode: if fi % 8 == 5 && !malformed && fi % 9 != 7 { 1 } else if fi % 5 == 4 && !malformed && fi % 9 != 7 { 4 } else { rng.below(4) } };
         let layout = rng.below(20);
         let same_cid = rng.chance(1, 15);
         let mut tables: Vec<ATable> = vec![];
@@ -1153,14 +1358,21 @@ fn main() {
         let fix = |t: (&'static str, bool)| if !t.1 && !bad_template { TEMPLATES[0] } else { t };
         // twin fonts: IFTX is a copy of IFT's entries under another template / compat id, so that candidates of
         // the two tables tie on the whole IntersectionInfo incl. entry order (max_by_key's last-maximum matters)
+        let layout = if fi % 8 == 5 && !malformed && fi % 9 != 7 { 10 } else { layout };
         let twin = layout >= 8 && layout < 17 && fi % 4 == 1;
+        // half of the twins keep IFT's template: every IFTX entry then expands to the URI of its IFT twin, so the
+        // duplicate of IFT's choice is IFTX's top-ranked partial candidate
+        let twin_same_uri = twin && fi % 8 == 5 && !malformed && fi % 9 != 7;
         let rng0 = rng.clone();
         if layout < 17 {
             tables.push(gen_table(&mut rng, 0, 1, fix(t0), &o, &mut st));
         }
         if twin {
             let mut r2 = rng0.clone();
-            let tt = if fix(t0).0 == TEMPLATES[3].0 { TEMPLATES[0] } else { TEMPLATES[3] };
+            let tt = if twin_same_uri { fix(t0) } else if fix(t0).0 == TEMPLATES[3].0 { TEMPLATES[0] } else { TEMPLATES[3] };
+            if twin_same_uri {
+                st.count("enc.twin_tables_same_uris");
+            }
             tables.push(gen_table(&mut r2, 1, 2, tt, &o, &mut st));
             st.count("enc.twin_tables");
         } else if layout >= 8 {
@@ -1322,6 +1534,7 @@ fn main() {
         }
     }
     format1_oracle(&mut rng, &mut st, if thorough { 240 } else { 45 });
+    format1_generated(&mut rng, &mut st, if thorough { 4000 } else { 500 });
     let shards = cw.finish();
     st.v.insert("shards".into(), shards.into());
     st.v.insert("model_cases".into(), cw.len().into());
